@@ -222,11 +222,11 @@ func carriers(rng *vh.Rng, s string) []enc {
 
 func freshOf(e enc) interface{} {
 	switch {
-	case e.kind == "pack" && len(e.b) >= 2:
+	case (e.kind == "pack" || e.kind == "topack") && len(e.b) >= 2:
 		return pack.CreatePack(int16(e.b[0])<<8 | int16(e.b[1]))
 	case e.kind == "steps:1" && len(e.b) >= 1:
 		return step.CreateStep(e.b[0])
-	case e.kind == "txrecord":
+	case e.kind == "txrecord", e.kind == "txobject":
 		return service.NewTxRecord()
 	}
 	return nil
